@@ -653,7 +653,7 @@ pub fn run(args: Args) {
     run.assume("the DN of an LDAP result (which carries the entry's spn) and DN-valued references are not attributes of the entry and are not judged; counted under ldap.dn_carries_spn_without_name_or_spn_grant");
     let seed = args.seed;
     let tier = args.tier;
-    let configs_per_worker = tier.pick(8usize, 200usize);
+    let configs_per_worker = tier.pick(8usize, 150usize);
     let queries_per_config = tier.pick(220u64, 400u64);
     let ldap_per_config = tier.pick(40u64, 80u64);
     // --replay <file>: re-run exactly the configuration of the witness (its config_seed)
